@@ -112,6 +112,14 @@ Theorem C41_ready_contiguous : forall start l rdy l' x r,
   list_ready start l = (rdy, l') -> rdy = [] \/ (t_nonce x = start /\ contig start rdy).
 Proof. exact list_ready_contig. Qed.
 Print Assumptions C41_ready_contiguous.
+(* "the queue has no executable head" after Ready: given that no queued nonce lies below the requested
+   start (Forward(state nonce) + pending/queue disjointness), the first tx left behind has a nonce
+   strictly above the end of the promoted run, i.e. above the new pending nonce *)
+Theorem C41_ready_leaves_no_executable_head : forall start l rdy l', sorted (l_txs l) ->
+  (forall x, In x (l_txs l) -> start <= t_nonce x) -> list_ready start l = (rdy, l') ->
+  match l_txs l' with [] => True | y :: _ => start + N.of_nat (length rdy) < t_nonce y end.
+Proof. exact list_ready_no_executable_head. Qed.
+Print Assumptions C41_ready_leaves_no_executable_head.
 Theorem C41_promote_appends : forall l t s,
   contig s l -> t_nonce t = s + N.of_nat (length l) -> sm_put t l = l ++ [t] /\ contig s (l ++ [t]).
 Proof. exact C41_promote_appends_stmt. Qed.
